@@ -860,3 +860,192 @@ func feedsFieldFunction(c *ssa.Call) bool {
 	}
 	return walk(c, 0)
 }
+
+// ---------------------------------------------------------------------------
+// SEQ-4: the parallel sibling moves samples into the canvas blocks with the same operator as
+// the sequential one. AddField accumulates (`block[i] += sample`): a sibling that overwrites
+// (plain store, copy()) gives a different canvas as soon as the block already holds data.
+
+type blockWrite struct {
+	at         ssa.Instruction
+	accumulate bool
+	how        string
+}
+
+// isCanvasBlock: v is one block of a canvas data field: an element loaded from a slice-of-slices
+// field of a struct of this package, or the result of an in-package call handed such a struct.
+func (r *region) isCanvasBlock(v ssa.Value, depth int) bool {
+	if depth > 6 {
+		return false
+	}
+	switch x := v.(type) {
+	case *ssa.Slice:
+		return r.isCanvasBlock(x.X, depth+1)
+	case *ssa.Phi:
+		for _, e := range x.Edges {
+			if r.isCanvasBlock(e, depth+1) {
+				return true
+			}
+		}
+	case *ssa.UnOp:
+		if x.Op != token.MUL {
+			return false
+		}
+		switch a := x.X.(type) {
+		case *ssa.IndexAddr:
+			if u, ok := a.X.(*ssa.UnOp); ok && u.Op == token.MUL {
+				if fa, ok := u.X.(*ssa.FieldAddr); ok {
+					if n := ssau.NamedOf(fa.X.Type()); n != nil && n.Obj().Pkg() == r.entry.Pkg.Pkg {
+						if sl, ok := u.Type().Underlying().(*types.Slice); ok {
+							_, inner := sl.Elem().Underlying().(*types.Slice)
+							return inner
+						}
+					}
+				}
+			}
+		case *ssa.Alloc:
+			for _, ref := range ssau.Refs(a) {
+				if st, ok := ref.(*ssa.Store); ok && st.Addr == ssa.Value(a) && r.isCanvasBlock(st.Val, depth+1) {
+					return true
+				}
+			}
+		}
+	case *ssa.Call:
+		callee := x.Call.StaticCallee()
+		if callee == nil || pkgOf(callee) != r.entry.Pkg.Pkg {
+			return false
+		}
+		if _, ok := x.Type().Underlying().(*types.Slice); !ok {
+			return false
+		}
+		for _, a := range x.Call.Args {
+			if n := ssau.NamedOf(a.Type()); n != nil && n.Obj().Pkg() == r.entry.Pkg.Pkg {
+				if _, isPtr := a.Type().Underlying().(*types.Pointer); isPtr {
+					return true
+				}
+			}
+		}
+	}
+	return false
+}
+
+func (r *region) blockWrites(fns []*ssa.Function) []blockWrite {
+	var out []blockWrite
+	p := r.k.c.P
+	for _, fn := range fns {
+		ssau.AllInstrs(fn, func(in ssa.Instruction) {
+			switch x := in.(type) {
+			case *ssa.Store:
+				ia, ok := x.Addr.(*ssa.IndexAddr)
+				if !ok || !r.isCanvasBlock(ia.X, 0) {
+					return
+				}
+				acc := false
+				if b, ok := x.Val.(*ssa.BinOp); ok && b.Op == token.ADD {
+					for _, o := range []ssa.Value{b.X, b.Y} {
+						if u, ok := o.(*ssa.UnOp); ok && u.Op == token.MUL {
+							if ia2, ok := u.X.(*ssa.IndexAddr); ok && ia2.X == ia.X && ia2.Index == ia.Index {
+								acc = true
+							}
+						}
+					}
+				}
+				how := "overwrites the cell (plain store) at " + p.Pos(ssau.PosOf(in))
+				if acc {
+					how = "accumulates (cell += value) at " + p.Pos(ssau.PosOf(in))
+				}
+				out = append(out, blockWrite{in, acc, how})
+			case *ssa.Call:
+				if ssau.Builtin(x) == "copy" && r.isCanvasBlock(x.Call.Args[0], 0) {
+					out = append(out, blockWrite{in, false, "overwrites a run of cells with copy() at " + p.Pos(ssau.PosOf(in))})
+				}
+			}
+		})
+	}
+	return out
+}
+
+// packageClosure: fns plus the in-package functions they reach through static calls and literals.
+func (r *region) packageClosure(roots []*ssa.Function) []*ssa.Function {
+	seen := map[*ssa.Function]bool{}
+	var out []*ssa.Function
+	var visit func(fn *ssa.Function, d int)
+	visit = func(fn *ssa.Function, d int) {
+		if fn == nil || seen[fn] || d > 5 || len(fn.Blocks) == 0 || pkgOf(fn) != r.entry.Pkg.Pkg {
+			return
+		}
+		seen[fn] = true
+		out = append(out, fn)
+		for _, a := range fn.AnonFuncs {
+			visit(a, d+1)
+		}
+		ssau.AllInstrs(fn, func(in ssa.Instruction) {
+			if ci, ok := in.(ssa.CallInstruction); ok {
+				visit(ci.Common().StaticCallee(), d+1)
+			}
+		})
+	}
+	for _, f := range roots {
+		visit(f, 0)
+	}
+	return out
+}
+
+func (r *region) seq4() {
+	p := r.k.c.P
+	seqName, ok := canvasSeq[r.entry.Name()]
+	if !ok {
+		return
+	}
+	var seqFn *ssa.Function
+	for _, fn := range p.FuncsOf(r.entry.Pkg) {
+		if fn.Name() == seqName && fn.Parent() == nil && sameRecvBase(fn, r.entry) {
+			seqFn = fn
+		}
+	}
+	if seqFn == nil {
+		return
+	}
+	seqW := r.blockWrites(r.packageClosure([]*ssa.Function{seqFn}))
+	// the parallel sibling without its single-worker shortcut into the sequential function
+	var parFns []*ssa.Function
+	for _, fn := range r.packageClosure([]*ssa.Function{r.entry}) {
+		parFns = append(parFns, fn)
+	}
+	parW := r.blockWrites(parFns)
+	if len(seqW) == 0 && len(parW) == 0 {
+		return
+	}
+	construct := r.name + ":accumulate"
+	pos := p.Pos(r.entry.Pos())
+	seqAcc, seqOver := false, false
+	var facts []string
+	for _, w := range seqW {
+		if w.accumulate {
+			seqAcc = true
+		} else {
+			seqOver = true
+		}
+		facts = append(facts, "sequential "+w.how)
+	}
+	var problems []string
+	for _, w := range parW {
+		if !w.accumulate && seqAcc && !seqOver {
+			problems = append(problems, "the parallel variant "+w.how+" where the sequential counterpart accumulates: the results differ whenever the block already holds data")
+		}
+		if w.accumulate && seqOver && !seqAcc {
+			problems = append(problems, "the parallel variant "+w.how+" where the sequential counterpart overwrites")
+		}
+		facts = append(facts, "parallel "+w.how)
+	}
+	if len(parW) == 0 {
+		problems = append(problems, "the parallel variant never writes a canvas block although the sequential counterpart does")
+	}
+	facts = dedupSorted(facts)
+	if len(problems) > 0 {
+		problems = dedupSorted(problems)
+		r.out.violate("SEQ-4", construct, pos, problems[0], append(problems[1:], facts...)...)
+	} else {
+		r.out.hold("SEQ-4", construct, pos, facts...)
+	}
+}
